@@ -701,8 +701,8 @@ end Tls
     decided by the kernel on that data.  Reverting one of the presence checks (e.g. `if not supported:` before
     `supported.groups`, `sni_ext.hostNames` before `hostNames[0]`), removing a handler of `_getMsg`, changing
     the alert of one, or parsing a new message type outside the `try` makes them false. -/
-namespace ErrSites
-open Tls.ErrSites Tls.ErrPath Tls.Gen.ErrPath
+namespace Tls.ErrSites
+open Tls.ErrPath Tls.Gen.ErrPath
 
 /-- Every `<Message>(...).parse(p)` of `_getMsg` is the one expected for its content / handshake type, and every
     exception class that a `parse*` method (messages.py, extensions.py) or `codec.Parser` raises - other than the
@@ -759,7 +759,10 @@ theorem gen_extension_uses_dominated_by_presence_check :
   refine ⟨rfl, rfl, by decide +kernel⟩
 
 example : extUses.length ≥ 140 := by decide +kernel
-example : (extUses.filter (fun u => u.direct)).length ≥ 130 := by decide +kernel
+-- a use under `if v:` is dominated directly, one behind `if not v: <alert>` too, one under `if w:` is not
+example : ExtUse.direct ⟨"", "", "v", "a", "attr", 0, [⟨"ext", "m", "x", ""⟩], [.atom 0]⟩ = true := by decide
+example : ExtUse.direct ⟨"", "", "v", "a", "attr", 0, [⟨"ext", "m", "x", ""⟩], [.not (.not (.atom 0))]⟩ = true := by decide
+example : ExtUse.direct ⟨"", "", "v", "a", "attr", 0, [⟨"ext", "m", "x", ""⟩, ⟨"ext", "m", "y", ""⟩], [.atom 1]⟩ = false := by decide
 -- `supported.groups` without the `if not supported:` check in front of it (the shape before 7443330)
 example : ExtUse.ok exitChecks
     { file := "tlsconnection.py", fn := "_serverGetClientHello", var := "supported", attr := "groups", kind := "attr",
@@ -774,6 +777,6 @@ example : ExtUse.ok exitChecks
 /-- `CompressedCertificate._decompress` / `.parse` contain exactly the bounding calls and checks that
     `ErrPath.decompress` models (zlib output limited to the declared length + 1, any decompressor failure becomes
     BadCertificateError, exact length match required). -/
-theorem gen_decompress_sites_match_model : decompressSites = expectedDecompress := rfl
+theorem gen_decompress_sites_match_model : decompressSites = expectedDecompress := by rfl
 
-end ErrSites
+end Tls.ErrSites
